@@ -543,56 +543,76 @@ func ruleG2b(c *Ctx) *RuleResult {
 			}
 		}
 		// every addition to the loop-carried size adds exactly len(range element of the parameter)
-		okSum := false
-		badTerm := false
-		isElemLen := func(v ssa.Value) bool {
-			lc, ok := stripConv(v).(*ssa.Call)
-			if !ok {
-				return false
-			}
-			if b, ok := lc.Call.Value.(*ssa.Builtin); !ok || b.Name() != "len" {
-				return false
-			}
-			u, ok := lc.Call.Args[0].(*ssa.UnOp)
-			if !ok {
-				return false
-			}
-			ia, ok := u.X.(*ssa.IndexAddr)
-			if !ok || sl == nil || ia.X != ssa.Value(sl) {
-				return false
-			}
-			isR, _ := rangeIndexOver(ia.Index)
-			return isR
-		}
-		allInstrs(fn, func(in ssa.Instruction) {
-			add, ok := in.(*ssa.BinOp)
-			if !ok || add.Op != token.ADD || !inLoopBlock(fn, add.Block()) {
-				return
-			}
-			phi, ok := add.X.(*ssa.Phi)
-			if !ok {
-				return
-			}
-			carried := false
-			for _, e := range phi.Edges {
-				if e == ssa.Value(add) {
-					carried = true
+		sumsLenOver := func(f *ssa.Function, slp *ssa.Parameter) bool {
+			okSum := false
+			badTerm := false
+			isElemLen := func(v ssa.Value) bool {
+				lc, ok := stripConv(v).(*ssa.Call)
+				if !ok {
+					return false
 				}
+				if b, ok := lc.Call.Value.(*ssa.Builtin); !ok || b.Name() != "len" {
+					return false
+				}
+				u, ok := lc.Call.Args[0].(*ssa.UnOp)
+				if !ok {
+					return false
+				}
+				ia, ok := u.X.(*ssa.IndexAddr)
+				if !ok || slp == nil || ia.X != ssa.Value(slp) {
+					return false
+				}
+				isR, _ := rangeIndexOver(ia.Index)
+				return isR
 			}
-			if !carried {
-				return
+			allInstrs(f, func(in ssa.Instruction) {
+				add, ok := in.(*ssa.BinOp)
+				if !ok || add.Op != token.ADD || !inLoopBlock(f, add.Block()) {
+					return
+				}
+				phi, ok := add.X.(*ssa.Phi)
+				if !ok {
+					return
+				}
+				carried := false
+				for _, e := range phi.Edges {
+					if e == ssa.Value(add) {
+						carried = true
+					}
+				}
+				if !carried {
+					return
+				}
+				if _, isConst := add.Y.(*ssa.Const); isConst {
+					return // the loop index
+				}
+				if isElemLen(add.Y) {
+					okSum = true
+				} else {
+					badTerm = true
+				}
+			})
+			if badTerm {
+				okSum = false
 			}
-			if _, isConst := add.Y.(*ssa.Const); isConst {
-				return // the loop index
-			}
-			if isElemLen(add.Y) {
-				okSum = true
-			} else {
-				badTerm = true
-			}
-		})
-		if badTerm {
-			okSum = false
+			return okSum
+		}
+		okSum := sumsLenOver(fn, sl)
+		if !okSum && sl != nil {
+			// the sum is taken by a helper that is handed the same slice (`size := payloadSize(au)`)
+			allInstrs(fn, func(in ssa.Instruction) {
+				call, ok := in.(*ssa.Call)
+				if !ok {
+					return
+				}
+				g := call.Call.StaticCallee()
+				if g == nil || !InRootPkg(g) || g.Blocks == nil || len(g.Params) != 1 || len(call.Call.Args) != 1 || call.Call.Args[0] != ssa.Value(sl) {
+					return
+				}
+				if sumsLenOver(g, g.Params[0]) {
+					okSum = true
+				}
+			})
 		}
 		// and the same slice goes to the writer
 		passed := false
